@@ -78,6 +78,13 @@ func (s *Session) modTarget(env *Env, x Expr) []modTarget {
 		base := env.eval(n.X)
 		if base.TypeName != nil {
 			t, st := structOf(base.TypeName)
+			if n.Name == "*" {
+				var out []modTarget
+				for _, mt := range s.allFieldsOf(env, t, TZero) {
+					out = append(out, modTarget{Key: mt.Key, Whole: true})
+				}
+				return out
+			}
 			i := fieldIndex(st, n.Name)
 			if i < 0 {
 				fatalf("%s: modifies: no field %s", s.name, n.Name)
@@ -280,6 +287,10 @@ func (s *Session) applyContract(st *State, con *Contract, callee *ssa.Function, 
 	cs := s.callsiteSpec(name)
 	cenv := s.callerEnv(st)
 	if cs != nil {
+		for _, a := range cs.AssumePre {
+			s.note("assumed before the call of " + short + ": " + a.Src)
+			st.assume(s.evalBool(st, cenv, a.E, a.Src))
+		}
 		for _, a := range cs.GhostPre {
 			s.ghostAssign(st, cenv, a)
 		}
@@ -555,8 +566,10 @@ func (s *Session) assumeInvariants(st *State, li *loopInfo) {
 		return
 	}
 	env := s.loopEnv(st, li)
-	for _, c := range li.spec.Invs {
-		st.assumeG(s.evalBool(st, env, c.E, c.Src), labelGroup(c.Label))
+	for i, c := range li.spec.Invs {
+		t := s.evalBool(st, env, c.E, c.Src)
+		st.assumeG(t, labelGroup(c.Label))
+		s.rgStable(st, fmt.Sprintf("loop%d.inv#%s", li.ord, clauseLabel(c, i)), t, li.head.Instrs[0].Pos())
 	}
 }
 
@@ -638,8 +651,10 @@ func (P *Prog) verifyFn(name string, sweep bool) (res *FnResult) {
 	// preconditions
 	if s.con != nil {
 		env := s.funcEnv(st, fr, nil)
-		for _, r := range s.con.Requires {
-			st.assume(s.evalBool(st, env, r.E, r.Src))
+		for i, r := range s.con.Requires {
+			t := s.evalBool(st, env, r.E, r.Src)
+			st.assume(t)
+			s.rgStable(st, "requires#"+clauseLabel(r, i), t, fn.Pos())
 		}
 		// vacuity: the preconditions must be satisfiable
 		vc := &VC{Obl: s.obl("vacuity.requires-sat", ""), Kind: "vacuity", Fn: s.name, ExpectSat: true, Goal: "requires satisfiable"}
@@ -695,7 +710,9 @@ func (s *Session) atReturn(st *State, results []Value) {
 	}
 	env := s.funcEnv(st, fr, results)
 	for i, c := range s.con.Ensures {
-		s.checkG(st, "post", s.obl("post#"+clauseLabel(c, i), ""), s.evalBool(st, env, c.E, c.Src), s.fn.Pos(), labelGroup(c.Label))
+		t := s.evalBool(st, env, c.E, c.Src)
+		s.checkG(st, "post", s.obl("post#"+clauseLabel(c, i), ""), t, s.fn.Pos(), labelGroup(c.Label))
+		s.rgStable(st, "post#"+clauseLabel(c, i), t, s.fn.Pos())
 	}
 	if s.con.HasMod && !s.con.ModAll {
 		s.checkFrame(st, env)
@@ -744,8 +761,8 @@ func (s *Session) frameTerms(st *State, env *Env, keys []string) []keyedTerm {
 	brk0 := s.HSnap(fr.entry, "$brk", SInt)
 	var out []keyedTerm
 	for _, k := range keys {
-		if k == "$brk" || whole[k] {
-			continue
+		if k == "$brk" || whole[k] || s.sharedKey(k) != nil {
+			continue // shared fields: writes are governed by guar/own, other threads' writes by the rely
 		}
 		so, ok := s.hsort[k]
 		if !ok {
@@ -803,4 +820,44 @@ func (s *Session) frameTerms(st *State, env *Env, keys []string) []keyedTerm {
 		out = append(out, keyedTerm{k, And(parts...)})
 	}
 	return out
+}
+
+// verifyLemmas checks the lemma clauses of a package's contracts (stand-alone facts).
+func (P *Prog) verifyLemmas(pkgShort string) *FnResult {
+	res := &FnResult{Name: pkgShort + ":lemmas"}
+	defer func() {
+		if r := recover(); r != nil {
+			if te, ok := r.(toolError); ok {
+				res.Err = te.msg
+				return
+			}
+			panic(r)
+		}
+	}()
+	for path, sp := range P.specs {
+		if P.short[path] != pkgShort || len(sp.Lemmas) == 0 {
+			continue
+		}
+		// any function of the package serves as typing context
+		var fn *ssa.Function
+		for _, f := range P.fns {
+			if f.Pkg != nil && f.Pkg.Pkg.Path() == path && f.Parent() == nil && f.Blocks != nil {
+				fn = f
+				break
+			}
+		}
+		s := &Session{P: P, fn: fn, name: pkgShort, D: NewDecls(), hsort: map[string]Sort{}, lits: map[string]Term{}, oblN: map[string]int{},
+			inlined: map[string]bool{}, trusted: map[string]bool{}, usedCon: map[string]bool{}, maxPaths: 10}
+		s.spec = sp
+		st := &State{heap: map[string]Term{}, seen: map[int]Term{}, counts: map[string]Term{}}
+		st.fr = &Frame{fn: fn, regs: map[ssa.Value]Value{}, cells: map[*ssa.Alloc]Term{}, params: map[string]Term{}, callN: map[string]int{}}
+		st.fr.entry = s.snap(st)
+		for i, l := range sp.Lemmas {
+			env := &Env{s: s, pkg: fn.Pkg.Pkg, spec: sp, st: st, vars: map[string]EVal{}, bound: map[string]EVal{}}
+			s.check(st, "lemma", pkgShort+":lemma#"+clauseLabel(l, i), s.evalBool(st, env, l.E, l.Src), token.NoPos)
+		}
+		s.finalize()
+		res.VCs = append(res.VCs, s.vcs...)
+	}
+	return res
 }
